@@ -1,0 +1,7 @@
+//go:build !verif
+
+package runtime
+
+// verifSchedPoint marks a point at which the interleaving of the VM's goroutines matters.
+// It only does something when the package is built with the `verif` tag (verification tooling).
+func verifSchedPoint(point string) {}
